@@ -20,7 +20,9 @@ Parts (each exhaustive within the tier bound):
   keys    7 keys of length 0/1/16/31/32/33/64: every ordered (minting, verifying) pair, both slots.
   ttl     token age in {0, ttl-1, ttl, ttl+1, ttl+2, 2ttl} x clock phase {.0, .5} x {both tokens old, only the call
           token old (cursor re-minted mid-life on a second worker)}.
-  opaque  every token minted anywhere above is scanned for 8-byte windows of the marker-laden plaintext.
+  opaque  every token of a 3-turn history of all 10 service entries x 3 identities is searched — as text, as sealed
+          bytes and through every zstd frame decodable at an envelope offset — for 8-byte windows of the
+          marker-laden plaintext (state / call-state markers, field names, the owner identity).
 
 Oracle (weakest reading):
   * anything not minted for this key / identity / stream / age  =>  HTTP 400, empty hook+deserialization log
@@ -44,6 +46,8 @@ from __future__ import annotations
 import base64
 import itertools
 from typing import Any
+
+import zstandard
 
 from vf.core.runner import Ctx
 from vf.kit import c12_tokens as T
@@ -217,9 +221,20 @@ class World:
             self.ctx.extra["tokens_scanned"] += 1
             self.ctx.extra["windows_searched"] += len(windows)
             raw = base64.b64decode(tok)
+            views = {"text": tok, "sealed-bytes": raw}
+            # unkeyed decodings anyone can apply: the payload is zstd-compressed before sealing, so look for a
+            # decodable zstd frame at every offset of the envelope header region as well
+            for off in range(0, min(48, len(raw))):
+                if raw[off : off + 4] == b"\x28\xb5\x2f\xfd":
+                    try:
+                        views[f"zstd@{off}"] = zstandard.ZstdDecompressor().decompressobj().decompress(raw[off:])
+                    except zstandard.ZstdError:
+                        pass
+            self.ctx.extra["token_views_searched"] += len(views)
             for w in sorted(windows):
-                if w in tok or w in raw:
-                    self.ctx.fail(f"plaintext-visible:{slot}", f"{slot} token contains plaintext window {w!r}", {"part": "opaque"})
+                for vn, view in views.items():
+                    if w in view:
+                        self.ctx.fail(f"plaintext-visible:{slot}", f"{slot} token ({vn}) contains plaintext window {w!r}", {"part": "opaque"})
 
     def history(self, subject: str, ident: T.Ident, label: str, worker: str = "warm", turns: int = 3, scan: bool = False) -> dict[str, Any]:
         """Init + (turns-1) own turns on *worker*; returns the minted tokens."""
@@ -266,7 +281,7 @@ def judge_reject(world: World, case: dict[str, Any], r: T.Resp, events: list[Any
     """
     ctx = world.ctx
     if accepted(r):
-        if cache_hit_possible:
+        if cache_hit_possible and cls != "b64-noncanonical":
             # one root cause for every integrity class (the hit path never opens the presented call token), a second
             # one for age (nothing on the hit path bounds the entry by the call token's own creation time)
             ctx.fail("accepted-on-cache-hit:call-token-" + ("expired" if cls == "expired" else "not-verified"),
@@ -593,7 +608,7 @@ def setup_refs(world: World) -> None:
 
 
 def _init_extra(ctx: Ctx) -> None:
-    for k in ("requests", "mutants", "tokens_scanned", "windows_searched"):
+    for k in ("requests", "mutants", "tokens_scanned", "windows_searched", "token_views_searched"):
         ctx.extra.setdefault(k, 0)
 
 
